@@ -280,7 +280,7 @@ def m_ref_dup(col, copies=2):
         rows.insert(0, {"type": "text", "name": "z", "label": "z"})
         for c in range(1, copies):
             rows.extend([{"type": "begin group", "name": f"zg{c}", "label": "zg"}, {"type": "text", "name": "z", "label": "z"}, {"type": "end group"}])
-        rows[k + 1][col] = "${z} = 1"
+        rows[k + 1][col] = "${z} = 1" if col != "trigger" else "${z}"  # (a trigger cell holds exactly one reference)
         return E(k + 1, False, ["z"])
     return f
 
